@@ -25,6 +25,7 @@ type recFS struct {
 	Writes   []int               // size of every Write call
 	HashOnly bool                // do not keep file contents (only size + SHA-256)
 	FailOn   string              // op prefix that fails (fault injection), e.g. "chtimes"
+	Plan     func(idx int) (fail bool, short int) // outcome of the idx-th logged call (nil: all succeed); short >= 0: a Write takes at most that many bytes
 	Mtimes   map[string]time.Time
 }
 
@@ -40,6 +41,16 @@ type recNode struct {
 func newRecFS() *recFS {
 	return &recFS{nodes: map[string]*recNode{".": {kind: KDir}}, Mtimes: map[string]time.Time{}}
 }
+
+// planned is the outcome the fault plan assigns to the call just logged.
+func (r *recFS) planned() (fail bool, short int) {
+	if r.Plan == nil {
+		return false, -1
+	}
+	return r.Plan(len(r.Log) - 1)
+}
+
+var errInjected = errors.New("recfs: injected failure (fault plan)")
 
 func cleanP(p string) string {
 	p = path.Clean(strings.TrimPrefix(p, "/"))
@@ -103,6 +114,9 @@ func (r *recFS) Mkdir(pathname string) error {
 	if r.FailOn == "mkdir" {
 		return errors.New("recfs: injected mkdir failure")
 	}
+	if f, _ := r.planned(); f {
+		return errInjected
+	}
 	if err := r.parentOK(p); err != nil {
 		return err
 	}
@@ -125,6 +139,9 @@ func (r *recFS) Close() error                    { return nil }
 func (r *recFS) Symlink(oldpath, newpath string) error {
 	p := cleanP(newpath)
 	r.Log = append(r.Log, "symlink:"+p+":"+strings.ReplaceAll(oldpath, "/", "|"))
+	if f, _ := r.planned(); f {
+		return errInjected
+	}
 	if err := r.parentOK(p); err != nil {
 		return err
 	}
@@ -140,6 +157,9 @@ func (r *recFS) Chtimes(pathname string, ctime, atime, mtime time.Time) error {
 	r.Log = append(r.Log, "chtimes:"+p)
 	if r.FailOn == "chtimes" {
 		return errors.New("recfs: injected chtimes failure")
+	}
+	if f, _ := r.planned(); f {
+		return errInjected
 	}
 	n, ok := r.nodes[p]
 	if !ok {
@@ -162,6 +182,9 @@ func (r *recFS) Remove(pathname string) error {
 func (r *recFS) OpenFile(pathname string, flag int) (filesystem.File, error) {
 	p := cleanP(pathname)
 	r.Log = append(r.Log, "open:"+p+":"+flagStr(flag))
+	if f, _ := r.planned(); f {
+		return nil, errInjected
+	}
 	n, ok := r.nodes[p]
 	if ok && n.kind == KDir {
 		return nil, fmt.Errorf("recfs: %s is a directory", p)
@@ -331,6 +354,11 @@ func (f *recFile) Write(b []byte) (int, error) {
 	f.fs.Writes = append(f.fs.Writes, len(b))
 	if f.fs.HashOnly {
 		f.fs.Log = append(f.fs.Log, fmt.Sprintf("write:%s:%d", f.p, len(b)))
+		if fail, short := f.fs.planned(); fail {
+			return 0, errInjected
+		} else if short >= 0 && short < len(b) {
+			b = b[:short] // short write, nil error
+		}
 		if f.off != f.n.size {
 			return 0, errors.New("recfs: hash-only mode supports sequential writes only")
 		}
@@ -340,6 +368,11 @@ func (f *recFile) Write(b []byte) (int, error) {
 		return len(b), nil
 	}
 	f.fs.Log = append(f.fs.Log, fmt.Sprintf("write:%s:%d:%08x", f.p, len(b), fnv32(b)))
+	if fail, short := f.fs.planned(); fail {
+		return 0, errInjected
+	} else if short >= 0 && short < len(b) {
+		b = b[:short] // short write, nil error
+	}
 	end := f.off + int64(len(b))
 	if end > int64(len(f.n.data)) {
 		f.n.data = append(f.n.data, make([]byte, end-int64(len(f.n.data)))...)
